@@ -41,7 +41,7 @@ impl TerminalDisplay {
         let file_path = self.get_relative_path(db, file_id);
         let document = db.get_vfs().get_document(&file_id).unwrap();
         let text = document.get_text();
-        let text_lines = text.lines().collect::<Vec<&str>>();
+        let text_lines = split_lines(text);
 
         // Group statistics by severity level
         let mut error_count = 0;
@@ -182,20 +182,8 @@ impl TerminalDisplay {
         // Calculate line and column numbers
         let start_line = range.start.line as usize;
         let start_character = range.start.character as usize;
-        let Some(start_col) = document.get_col_offset_at_line(start_line, start_character) else {
-            return;
-        };
-        let start_col = u32::from(start_col) as usize;
         let end_line = range.end.line as usize;
         let end_character = range.end.character as usize;
-        let Some(end_col) = document.get_col_offset_at_line(end_line, end_character) else {
-            return;
-        };
-        let end_col = u32::from(end_col) as usize;
-
-        if start_line >= lines.len() {
-            return;
-        }
 
         // Print diagnostic header
         if self.supports_color {
@@ -229,6 +217,21 @@ impl TerminalDisplay {
                 start_character + 1
             );
         }
+
+        // The header and the location are always printed, so that the report lists every
+        // diagnostic; the source excerpt is skipped when the position is outside the text.
+        let start_col = document.get_col_offset_at_line(start_line, start_character);
+        let end_col = document.get_col_offset_at_line(end_line, end_character);
+        let (Some(start_col), Some(end_col)) = (start_col, end_col) else {
+            println!();
+            return;
+        };
+        if start_line >= lines.len() {
+            println!();
+            return;
+        }
+        let start_col = u32::from(start_col) as usize;
+        let end_col = u32::from(end_col) as usize;
 
         // Calculate context range to display (one line before and after for context)
         let context_start = if start_line > 0 { start_line - 1 } else { 0 };
@@ -401,4 +404,32 @@ impl TerminalDisplay {
             println!("\nCheck successful");
         }
     }
+}
+
+/// Split a text into lines at `\r\n`, `\n` and lone `\r`, the same line structure the
+/// document's line index (and therefore every diagnostic range) uses.
+fn split_lines(text: &str) -> Vec<&str> {
+    let bytes = text.as_bytes();
+    let mut lines = Vec::new();
+    let mut start = 0;
+    let mut i = 0;
+    while i < bytes.len() {
+        match bytes[i] {
+            b'\n' => {
+                lines.push(&text[start..i]);
+                i += 1;
+                start = i;
+            }
+            b'\r' => {
+                lines.push(&text[start..i]);
+                i += if bytes.get(i + 1) == Some(&b'\n') { 2 } else { 1 };
+                start = i;
+            }
+            _ => i += 1,
+        }
+    }
+    if start < bytes.len() {
+        lines.push(&text[start..]);
+    }
+    lines
 }
